@@ -129,6 +129,22 @@ def _layout_task(task, out):
             return
         if tuple(u.shape) != (N, K) or not torch.equal(u.to(torch.uint8), M):
             bad("not_inverse", f"unpack(pack(M)) != M for digit probe {d}", c)
+        # wrappers made from the packed tensor (detach(), as used by nn.Parameter / freeze) must denote the same matrix: same
+        # payload bits, same layout flags, same unpack.  (__tensor_flatten__/__tensor_unflatten__ is deliberately not demanded:
+        # on the pinned tree unflatten cannot parse the flattened `packing` string - outside what C15 states, see DESIGN 6.)
+        for how in ("detach", "parameter"):
+            try:
+                if how == "detach":
+                    pd = p.detach()
+                else:
+                    pd = torch.nn.Parameter(p, requires_grad=False).data
+                same = (type(pd) is AWQPackedTensor and torch.equal(pd._data, p._data) and pd._packing == p._packing and bool(pd._reorder) == bool(p._reorder)
+                        and tuple(pd.shape) == tuple(p.shape) and torch.equal(pd.unpack().to(torch.uint8), M))
+            except Exception as e:  # noqa
+                same = False
+                how += f" raised {type(e).__name__}: {str(e)[:120]}"
+            if not same:
+                bad("rewrap_differs", f"{how} of the packed tensor does not unpack to the packed matrix / loses layout flags (digit probe {d})", c)
         if v2:
             r = ref_pack(M.to(torch.int32), interleave=4, kstride=64)  # the reference packer expects int32 input (as in its own test)
             if r.dtype != p._data.dtype or not torch.equal(r, p._data):
@@ -330,9 +346,19 @@ def _repr_task(task, out):
         in_range = bool(((zp >= 0) & (zp <= 15)).all())
         # the AWQ representation stores -zero-point*scale in float16: not invertible when that product overflows
         overflow = bool(((zp.to(torch.float64).abs() * sc.to(torch.float64)) >= 65504.0).any())
-        for route in ("qbits_tensor", "state_dict"):
+        # the third and fourth routes repeat the conversion after the object returned by the first one was rescaled in place through
+        # the public operators (`q *= 2; q /= 8`): the AWQ tensor must still hand out the original representation (a conversion
+        # that memoises its components and an in-place operator that writes through them cooperate otherwise)
+        for route in ("qbits_tensor", "state_dict", "qbits_tensor_after_inplace", "state_dict_after_inplace"):
             try:
-                if route == "qbits_tensor":
+                if route.endswith("_after_inplace"):
+                    first = awq.qbits_tensor()
+                    first *= 2
+                    first /= 8
+                    if not bool(((awq.dequantize().to(torch.float64) == d_awq) | ~torch.isfinite(d_awq)).all()):
+                        out["violations"].append(violation(PID, case, dict(fields, sub="back_conversion", route=route, zp_out_of_range=not in_range, zp_scale_overflow=overflow),
+                                                           f"back_conversion: rescaling the tensor returned by qbits_tensor() in place changed what the AWQ tensor dequantizes to ({N}x{K})"))
+                if route.startswith("qbits_tensor"):
                     back = awq.qbits_tensor()
                 else:
                     sd = {}
